@@ -137,11 +137,13 @@ prop("C20", "proof",
      note=VERUS_NOTE, needs_autocomplete=True)
 
 prop("C19", "proof",
-     "window arithmetic of adjacent groups: ArgRangesIter::next proposes exactly the available items of the current scope, in command-line order, each with a sub-state starting at the candidate "
-     "(proved; this obligation exposed defect D8, fixed in e444188); set_scope / adjacently_available_from / adjacent_scope are checked by Kani within 3 items. "
-     "ParseAdjacent::eval itself (two-pass parse, scope trimming) is a for-loop over a custom iterator and is not under contract.",
-     ["ParseAdjacent::eval (src/structs.rs:1126-1219) and adjacent ParseCommand: not under contract", "set_scope/adjacently_available_from/adjacent_scope: bounded (3 items) only"],
+     "ParseAdjacent::eval is proved (for every inner parser that keeps its scope and consumes only inside it) to hand back the scope it was given and, on success, to have consumed exactly one "
+     "contiguous run of previously available items inside that scope, starting at a candidate proposed by ArgRangesIter::next (available items of the scope, in command-line order); the retry loop terminates. "
+     "These obligations exposed defects D8 and D10 (both fixed). set_scope / adjacently_available_from / adjacent_scope are used through assumed contracts that Kani checks within 3 items.",
+     ["adjacent ParseCommand (closures over &mut State, outside Verus)", "set_scope/adjacently_available_from/adjacent_scope bodies: bounded (3 items) only",
+      "the assumption on the group's inner parser (keeps scope, consumes inside it) is not proved for every member shape"],
      note=VERUS_NOTE)
+
 
 KANI_NOTE = ("Bounded model checking (Kani 0.68 / CBMC 6.11) of the real functions compiled inside the crate through the cfg(kani) include hooks; "
              "every bound is stated per unit; nothing here is counted as proved. Trusted: Kani/CBMC, the harness's expected-output computation, ASCII assumptions where stated.")
